@@ -149,6 +149,7 @@ structure CSt where
   joined : List Nat := []
   liveAtReturn : List Nat := []
   late : List Nat := []           -- stream: registered workers that had not yet taken their first step when main aborted
+  msecs : List Section := []      -- suite: the stop() sections of the abort path, once main has entered it
 deriving Repr, Inhabited
 
 def spawnCount (i : SInput) : Nat :=
@@ -191,6 +192,7 @@ def abortMain (i : SInput) (s : CSt) (c : Cause) : CSt :=
     else
       { s with base := { s.base with pcs := s.base.pcs.set 0 (progSteps (stopSections i.mfaults 0 s.reg.length)) },
                mpc := .abort,
+               msecs := stopSections i.mfaults 0 s.reg.length,
                pending := if stopsRaise i.mfaults 0 s.reg.length then .injected else c }
 
 /-- `while threads:` -/
